@@ -55,12 +55,29 @@ std::vector<uint8_t> dumpBitmap(const BitmapFile& b) {
 	return o;
 }
 
+// Which kind of writer a serialiser is handed is environment too: a growing memory writer, a file writer used in place, or a file
+// writer that was moved (heap objects; the moved-from one is destroyed before anything is written). Set per pass by the executor.
+int g_writerRoute = 0;
+uint64_t g_writerSerial = 0;
+
 template <class F> std::vector<uint8_t> toBytes(F&& writeTo) {
-	Stream::DynamicMemoryWriter w;
-	writeTo(w);
-	auto rd = w.GetReader();
-	std::vector<uint8_t> out(static_cast<size_t>(rd.Length()));
-	rd.Read(out.data(), out.size());
+	std::vector<uint8_t> out;
+	if (g_writerRoute == 0) {
+		Stream::DynamicMemoryWriter w;
+		writeTo(w);
+		auto rd = w.GetReader();
+		out.resize(static_cast<size_t>(rd.Length()));
+		rd.Read(out.data(), out.size());
+		return out;
+	}
+	std::string path = "_tw/o" + std::to_string(++g_writerSerial) + ".bin";
+	disk::mkdirs("_tw");
+	{
+		auto w = std::make_unique<Stream::FileWriter>(path);
+		if (g_writerRoute == 2) { auto moved = std::make_unique<Stream::FileWriter>(std::move(*w)); w.reset(); writeTo(*moved); }
+		else writeTo(*w);
+	}
+	disk::get(path, out);
 	return out;
 }
 
@@ -184,6 +201,7 @@ struct TwinEnv : Family {
 		disk::wipe();
 		resetDirOrdinal();
 		g_alloc.heapFill = static_cast<unsigned char>(e.heap);
+		g_writerRoute = static_cast<int>(e.stack % 3);
 		g_fault.shortRead = static_cast<uint32_t>(e.shortRead);
 		g_fault.shortWrite = static_cast<uint32_t>(e.shortWrite);
 		g_fault.eintr = static_cast<uint32_t>(e.eintr == 1 ? 2 : e.eintr);
@@ -218,8 +236,18 @@ struct TwinEnv : Family {
 				Rng pr(e.perm);
 				for (size_t i = list.size(); i > 1; --i) std::swap(list[i - 1], list[pr.below(i)]);
 				std::string outp = "vout" + std::to_string(oi) + "/a.vol";
+				// what already lies at the destinations is environment, not input: one of the two environments finds an older volume and
+				// older extracted files of the same names and lengths there
+				bool stale = (e.heap & 2) != 0;
+				if (stale) disk::put(outp, prngBytes(e.perm, 300));
 				must(callLib(plan, [&] { Archive::VolFile::CreateArchive(outp, list); }, &what), "VolFile::CreateArchive");
 				disk::get(outp, out[key + ":vol-bytes"]);
+				{
+					std::string xdir = "vx" + std::to_string(oi);
+					if (stale) for (auto& in : ins) { std::vector<uint8_t> old(in.data.size()); for (size_t q = 0; q < old.size(); ++q) old[q] = static_cast<uint8_t>(~in.data[q]); disk::put(xdir + "/" + in.name, old); }
+					must(callLib(plan, [&] { Archive::VolFile vf(outp); vf.ExtractAllFiles(xdir); }, &what), "extracting the volume");
+					for (auto& in : ins) { std::vector<uint8_t> f; if (disk::get(xdir + "/" + in.name, f)) out[key + ":vol-x:" + in.name] = f; }
+				}
 				std::vector<uint8_t> listing;
 				must(callLib(plan, [&] { Archive::VolFile vf(outp); for (size_t i = 0; i < vf.GetCount(); ++i) { std::string n = vf.GetName(i); listing.insert(listing.end(), n.begin(), n.end()); listing.push_back(0); ref::putU32(listing, vf.GetSize(i)); ref::putU16(listing, static_cast<uint16_t>(vf.GetCompressionCode(i))); } }, &what), "listing the written volume");
 				out[key + ":vol-listing"] = listing;
@@ -243,6 +271,13 @@ struct TwinEnv : Family {
 				std::string outp = "cout" + std::to_string(oi) + "/a.clm";
 				must(callLib(plan, [&] { Archive::ClmFile::CreateArchive(outp, list); }, &what), "ClmFile::CreateArchive");
 				disk::get(outp, out[key + ":clm-bytes"]);
+				if (e.heap & 2) {
+					// stale extracted tracks of the same lengths at the destinations (environment, not input)
+					size_t k = 0;
+					std::vector<std::string> sorted = seenNames;
+					std::sort(sorted.begin(), sorted.end(), [](const std::string& a, const std::string& b) { return ref::nameCompare(a, b) < 0; });
+					for (auto& nm : sorted) for (auto& l : plan.world) if (l.verb == "wav" && l.get("name") == nm) { disk::put("cx" + std::to_string(oi) + "/" + std::to_string(k++) + ".wav", prngBytes(e.perm ^ k, 46 + static_cast<size_t>(l.u("len")))); break; }
+				}
 				must(callLib(plan, [&] { Archive::ClmFile cf(outp); for (size_t i = 0; i < cf.GetCount(); ++i) { std::string p = "cx" + std::to_string(oi) + "/" + std::to_string(i) + ".wav"; cf.ExtractFile(i, p); } }, &what), "extracting the CLM tracks");
 				for (size_t i = 0; i < list.size(); ++i) { std::vector<uint8_t> wv; if (disk::get("cx" + std::to_string(oi) + "/" + std::to_string(i) + ".wav", wv)) out[key + ":wav" + std::to_string(i)] = wv; }
 			} else if (v == "map") {
